@@ -870,22 +870,18 @@ EGLPNUM_TYPENAME_QSLIB_INTERFACE EGLPNUM_TYPENAME_QSdata *EGLPNUM_TYPENAME_QScop
 
 	if (p->qslp->objname != 0)
 	{
+		/* a problem without objective name (built through the API) gets a copy
+		 * without one: a name made up here would occupy a row name ("obj") in
+		 * the copy that is free in the original */
 		ILL_UTIL_STR (p2->qslp->objname, p->qslp->objname);
-	}
-	else
-	{
-		strcpy (buf, "obj");
-		rval = ILLsymboltab_uname (&p2->qslp->rowtab, buf, "", NULL);
+		if (p2->qslp->rowtab.tablesize == 0) {
+			ILLsymboltab_create(&p2->qslp->rowtab, 100);
+		}
+		rval = ILLsymboltab_register (&p2->qslp->rowtab, p2->qslp->objname,
+																	-1, &pindex, &hit);
+		rval = rval || hit;
 		CHECKRVALG (rval, CLEANUP);
-		ILL_UTIL_STR (p2->qslp->objname, buf);
 	}
-	if (p2->qslp->rowtab.tablesize == 0) {
-		ILLsymboltab_create(&p2->qslp->rowtab, 100);
-	}
-	rval = ILLsymboltab_register (&p2->qslp->rowtab, p2->qslp->objname,
-																-1, &pindex, &hit);
-	rval = rval || hit;
-	CHECKRVALG (rval, CLEANUP);
 
 	ILLstring_reporter_copy (&p2->qslp->reporter, &p->qslp->reporter);
 
